@@ -219,8 +219,20 @@ func c07Scenario(p c07Params) *explore.Scenario {
 			vx.Quiesce()
 			if c.Connected() {
 				// a client that carries on after a temporary error is as good as one that gives up, as long as the
-				// wire stays intact: the server ends this connection then
-				vc.EOF()
+				// wire stays intact and it really carries on: it answers a PING; the server ends this connection then
+				n := len(vc.Lines())
+				vc.SendLines("PING :provoke-a-write")
+				vx.Quiesce()
+				if c.Connected() {
+					answered := false
+					for _, l := range vc.Lines()[n:] {
+						if NormLine(l) == "PONG :provoke-a-write" {
+							answered = true
+						}
+					}
+					vx.Observe("ev", fmt.Sprintf("survived-partial-write answers=%v", answered))
+					vc.EOF()
+				}
 			}
 		case "cancel":
 			cancel()
@@ -268,6 +280,9 @@ func c07Scenario(p c07Params) *explore.Scenario {
 		}
 		if l := ClientLeaks(o); len(l) > 0 {
 			fs = append(fs, explore.Finding{Oracle: "leak", Msg: "client goroutines alive after the disconnect: " + strings.Join(l, " | ")})
+		}
+		if count(ev, "survived-partial-write answers=false") > 0 {
+			fs = append(fs, explore.Finding{Oracle: "kept-but-mute", Msg: "the client kept the connection after a write that reported a temporary error, but a PING received afterwards is never answered: the connection neither ends nor works"})
 		}
 		if len(ev) > 0 && ev[len(ev)-1] != "end connected=false" {
 			fs = append(fs, explore.Finding{Oracle: "still-connected", Msg: "Connected() is true after the disconnect: " + ev[len(ev)-1]})
@@ -415,6 +430,11 @@ func c07ReconnectScenario(p c07RecParams) *explore.Scenario {
 		for k := 1; k <= p.Cycles; k++ {
 			connects.WaitFor(k)
 			vx.Quiesce()
+			// the contexts of the connections that are over are cancelled now (an application cleaning up): that is no
+			// business of the connection that is up
+			for j := 0; j < k-1 && j < len(ctxs); j++ {
+				ctxs[j]()
+			}
 			vx.Sleep(10 * time.Minute) // far longer than any timeout the configuration knows (Config.Timeout is 60 s)
 			vx.Quiesce()
 			// the k-th connection has been up and idle for a while: it must still be there
